@@ -132,7 +132,7 @@ def do_text(form, p0, p1, l0, l1, q0, m0):
 
 for form in ('pl', 'plpl', 'ip', 'jsonlist', 'jsondict', 'portlink', 'connection'):
     define(globals(), 'C15', 'text_%s' % form, ['p0', 'p1', 'l0', 'l1', 'q0', 'm0'], "return do_text(%r, p0, p1, l0, l1, q0, m0)" % form,
-           ['0 <= p0 <= 9 and 0 <= p1 <= 9 and p0 + p1 >= 1 and 0 <= l0 <= 9 and 0 <= l1 <= 9 and 1 <= q0 <= 9 and 0 <= m0 <= 9'],
+           ['0 <= p0 <= 9 and 0 <= p1 <= 9 and p0 + p1 >= 1 and 0 <= l0 <= 2 and 0 <= l1 <= 9 and 1 <= q0 <= 2 and 8 <= m0 <= 9'],
            tier='quick' if form in ('pl', 'plpl', 'ip', 'connection') else 'thorough', timeout=2400, path_timeout=60,
            drives=['cpppo.server.enip.device.parse_route_path', 'cpppo.server.enip.device.port_link', 'cpppo.server.enip.device.parse_connection_path'],
            bounds="textual route path form %r built from symbolic DIGITS (2-digit port incl. leading zero, 2-digit link, 1-digit second hop / "
